@@ -5,17 +5,20 @@ operation on stdout.  The first word of a line selects the core.
 specification's.
 -/
 import Mqtt.Driver.AckQ
+import Mqtt.Driver.Codec
 
 namespace Mqtt.Driver
 
 structure DState where
   ackq : AckQ.St := AckQ.St.init
+  codec : Codec.St := Codec.St.init
 
 def dispatch (st : DState) (line : String) : DState × String × String :=
   match words line with
   | "ackq" :: rest =>
     let (a, m, s) := AckQ.handle st.ackq rest
     ({ st with ackq := a }, m, s)
+  | "codec" :: rest => let (a, m, s) := Codec.handle st.codec rest; ({ st with codec := a }, m, s)
   | [] => (st, "", "")
   | _ => (st, "bad-core", "bad-core")
 
